@@ -28,6 +28,19 @@ pub open spec fn c_alias(k: IntKind) -> Option<Seq<char>> {
     }
 }
 pub open spec fn size_known(s: usize) -> bool { s == 1 || s == 2 || s == 4 || s == 8 || s == 16 }
+// <stdint.h> / <stddef.h> (C11 7.20, 7.19): the well-known typedef names and the Rust primitive of the same width AND
+// signedness; ptrdiff_t and intptr_t are signed, size_t and uintptr_t unsigned
+pub open spec fn std_typedef(name: &str, size_t_is_usize: bool) -> Option<Seq<char>> {
+    if name == "int8_t" { Some("i8"@) } else if name == "uint8_t" { Some("u8"@) }
+    else if name == "int16_t" { Some("i16"@) } else if name == "uint16_t" { Some("u16"@) }
+    else if name == "int32_t" { Some("i32"@) } else if name == "uint32_t" { Some("u32"@) }
+    else if name == "int64_t" { Some("i64"@) } else if name == "uint64_t" { Some("u64"@) }
+    else if name == "size_t" && size_t_is_usize { Some("usize"@) }
+    else if name == "uintptr_t" { Some("usize"@) }
+    else if name == "ssize_t" && size_t_is_usize { Some("isize"@) }
+    else if name == "intptr_t" || name == "ptrdiff_t" { Some("isize"@) }
+    else { None }
+}
 """
 
 PQ = "syn::parse_quote! { %s }"
@@ -36,7 +49,7 @@ PRIM = {"int": "ty_int({signed}, {bytes})", "float": "ty_float({bytes})", "bool"
 UNIT = {
     "name": "prim_types",
     "env": [os.path.join(ENV, "prim_types_env.rs")],
-    "declared_trusted": {r"external_body": 11},
+    "declared_trusted": {r"external_body": 12},
     "items": [
         {"kind": "enum", "file": "bindgen/ir/int.rs", "name": "IntKind", "prefix": "#[derive(Copy, Clone, PartialEq, Eq)]"},
         {"kind": "enum", "file": "bindgen/ir/ty.rs", "name": "FloatKind", "prefix": "#[derive(Copy, Clone, PartialEq, Eq)]"},
@@ -83,6 +96,12 @@ UNIT = {
              "fk is LongDouble && size_known(layout.unwrap().size) ==> ty_size(r) == layout.unwrap().size",
              "fk is LongDouble && (layout.unwrap().size == 4 || layout.unwrap().size == 8) ==> ty_is_float(r)",
              "fk is Float128 ==> ty_size(r) == 16 && ty_align(r) == 16",
+         ]},
+        {"kind": "fn", "file": "bindgen/codegen/mod.rs", "name": "type_from_named", "ret": "r",
+         "subst": [("Option<syn::Type>", "Option<Tok>", 1, "R4")],
+         "proof_start": "reveal_strlit(\"int8_t\"); reveal_strlit(\"uint8_t\"); reveal_strlit(\"int16_t\"); reveal_strlit(\"uint16_t\"); reveal_strlit(\"int32_t\"); reveal_strlit(\"uint32_t\"); reveal_strlit(\"int64_t\"); reveal_strlit(\"uint64_t\"); reveal_strlit(\"size_t\"); reveal_strlit(\"uintptr_t\"); reveal_strlit(\"ssize_t\"); reveal_strlit(\"intptr_t\"); reveal_strlit(\"ptrdiff_t\"); reveal_strlit(\"i8\"); reveal_strlit(\"u8\"); reveal_strlit(\"i16\"); reveal_strlit(\"u16\"); reveal_strlit(\"i32\"); reveal_strlit(\"u32\"); reveal_strlit(\"i64\"); reveal_strlit(\"u64\"); reveal_strlit(\"usize\"); reveal_strlit(\"isize\");",
+         "ensures": [
+             "match r { Some(t) => std_typedef(name, ctx.spec_options().size_t_is_usize) == Some(ty_prim_name(t)), None => std_typedef(name, ctx.spec_options().size_t_is_usize).is_none() }",
          ]},
     ],
 }
